@@ -163,7 +163,16 @@ impl Report {
         let n = self.viol_sigs.entry(signature.to_string()).or_insert(0);
         *n += 1;
         if *n > 3 {
-            return; // at most three artefacts per signature
+            // at most three artefacts per signature. A flood of violations means the property is
+            // thoroughly broken: stop there instead of enumerating (slowly, e.g. with thousands of
+            // leaked descriptors) to the end
+            if self.violations >= 5000 {
+                self.caps.push("stopped after 5000 violation instances".into());
+                self.exhaustive = false;
+                let code = self.finish_mut();
+                std::process::exit(code);
+            }
+            return;
         }
         let dir = verif_root().join("replays").join(&self.id);
         let _ = fs::create_dir_all(&dir);
@@ -188,6 +197,10 @@ impl Report {
 
     /// Write the evidence file and return the process exit code.
     pub fn finish(mut self) -> i32 {
+        self.finish_mut()
+    }
+
+    pub fn finish_mut(&mut self) -> i32 {
         // Vacuity guard: an exploration with a single observed outcome means nothing collided.
         let mut machinery_fail = None;
         if self.outcomes.len() < 2 && self.evaluations > 1 {
@@ -274,15 +287,15 @@ impl Report {
             self.exhaustive && self.caps.is_empty(),
             wall
         );
+        // a run that found violations is a verdict even if it explored little
+        if self.violations > 0 {
+            return 1;
+        }
         if let Some(m) = machinery_fail {
             eprintln!("MACHINERY FAILURE: {m}");
             return 2;
         }
-        if self.violations > 0 {
-            1
-        } else {
-            0
-        }
+        0
     }
 }
 
